@@ -1,8 +1,16 @@
 (* Proofs/FeHProofs.v -- proofs for Properties/C10.v (metallicity snapping). *)
-From Coq Require Import ZArith QArith Qabs List Bool Lia ZifyBool.
+From Coq Require Import ZArith QArith List Bool Lia ZifyBool.
+(* Properties/C10.v uses [Qabs] without requiring it: re-export it from here. *)
+From Coq Require Export Qabs.
 From SSP Require Import Model.FeHLookup.
 Import ListNotations.
 Local Open Scope Z_scope.
+
+(* Properties/C10.v writes [(0 <= h)%Q] with [h : Z]; this only type-checks with
+   the canonical embedding as a coercion, so that the statement reads
+   [(0 <= inject_Z h)%Q]. The coercion is deliberately global (C10.v imports
+   this file). *)
+Coercion inject_Z : Z >-> Q.
 
 Ltac Zify.zify_post_hook ::= Z.div_mod_to_equations.
 
@@ -43,6 +51,12 @@ Proof.
   { replace (2 * r <? d) with true by (symmetry; apply Z.ltb_lt; lia). lia. }
 Qed.
 
+Lemma rhe_0 : forall d, 0 < d -> rhe 0 d = 0.
+Proof.
+  intros d Hd. unfold rhe. rewrite Z.div_0_l by lia. rewrite Z.mod_0_l by lia.
+  replace (2 * 0 <? d) with true by (symmetry; apply Z.ltb_lt; lia). reflexivity.
+Qed.
+
 (* ---------- Q helpers ---------- *)
 
 (* characterisation of the two grid ends as Z inequalities *)
@@ -73,36 +87,34 @@ Lemma fmt2_nearest : forall nz x,
   let h := snd (fmt2 nz x) in
   (0 <= h /\ Qabs (inject_Z h - 100 * Qabs x) <= 1 # 2)%Q.
 Proof.
-  intros nz [n d]. simpl.
+  intros nz [n d]. cbv zeta. unfold fmt2. cbn [snd Qnum Qden].
+  change (Qabs (n # d)) with (Z.abs n # d).
   destruct (rhe_spec (100 * Z.abs n) (Zpos d) ltac:(lia) ltac:(lia)) as [H0 H1].
+  set (h := rhe (100 * Z.abs n) (Zpos d)) in *.
   split.
-  { unfold Qle. simpl. lia. }
-  { pose proof (near_Z (rhe (100 * Z.abs n) (Zpos d)) 1 (Z.abs n) d) as HN.
-    rewrite Z.abs_involutive in HN. rewrite Z.mul_1_l in HN.
-    apply HN; [exact H1|]. destruct (Z.eq_dec n 0) as [E|E].
-    - right. subst n. simpl. unfold rhe. simpl. reflexivity.
-    - left. lia. }
+  { unfold Qle, inject_Z. cbn [Qnum Qden]. lia. }
+  { replace h with (1 * h) at 1 by lia.
+    apply near_Z.
+    - rewrite Z.abs_involutive. exact H1.
+    - destruct (Z.eq_dec n 0) as [E|E].
+      + right. subst n. apply rhe_0. lia.
+      + left. lia. }
 Qed.
 
 Lemma fmt2_sign : forall nz x,
   fst (fmt2 nz x) = (if Qnum x =? 0 then nz else Qnum x <? 0).
 Proof. intros nz x. reflexivity. Qed.
 
-Lemma rhe_0 : forall d, 0 < d -> rhe 0 d = 0.
-Proof.
-  intros d Hd. unfold rhe. rewrite Z.div_0_l by lia. rewrite Z.mod_0_l by lia.
-  replace (2 * 0 <? d) with true by (symmetry; apply Z.ltb_lt; lia). reflexivity.
-Qed.
-
 Lemma fmt2_val_nearest : forall nz y,
   (Qabs (inject_Z (name_val (fmt2 nz y)) - 100 * y) <= 1 # 2)%Q.
 Proof.
-  intros nz [n d]. unfold name_val, fmt2. simpl fst. simpl snd. simpl Qnum. simpl Qden.
+  intros nz [n d]. unfold name_val, fmt2. cbn [fst snd Qnum Qden].
   destruct (rhe_spec (100 * Z.abs n) (Zpos d) ltac:(lia) ltac:(lia)) as [H0 H1].
   set (h := rhe (100 * Z.abs n) (Zpos d)) in *.
   destruct (n =? 0) eqn:E0.
-  { apply Z.eqb_eq in E0. subst n. simpl Z.abs in *. rewrite Z.mul_0_r in *.
-    assert (Hh : h = 0) by (apply rhe_0; lia).
+  { apply Z.eqb_eq in E0.
+    assert (Hh : h = 0).
+    { unfold h. rewrite E0. apply (rhe_0 (Zpos d)). lia. }
     replace (if nz then - h else h) with (0 * h) by (rewrite Hh; destruct nz; reflexivity).
     apply near_Z; [exact H1|right; exact Hh]. }
   apply Z.eqb_neq in E0.
@@ -125,20 +137,20 @@ Lemma clamp_props : forall lo hi x, (lo <= hi)%Q ->
 Proof.
   intros lo hi x Hlh. unfold clampQ.
   destruct (Qlt_le_dec x lo) as [H1|H1].
-  { repeat split.
+  { split; [|split; [|split; [|split]]].
     - apply Qle_refl.
     - exact Hlh.
     - intros Ha Hb. exfalso. apply (Qlt_not_le _ _ H1 Ha).
     - intros _. reflexivity.
     - intros Hb. exfalso. apply (Qlt_not_le _ _ (Qlt_trans _ _ _ Hb H1) Hlh). }
   destruct (Qlt_le_dec hi x) as [H2|H2].
-  { repeat split.
+  { split; [|split; [|split; [|split]]].
     - exact Hlh.
     - apply Qle_refl.
     - intros Ha Hb. exfalso. apply (Qlt_not_le _ _ H2 Hb).
     - intros Hb. exfalso. apply (Qlt_not_le _ _ Hb H1).
     - intros _. reflexivity. }
-  { repeat split.
+  { split; [|split; [|split; [|split]]].
     - exact H1.
     - exact H2.
     - intros _ _. reflexivity.
@@ -189,11 +201,11 @@ Proof.
   unfold table_of.
   set (y := clampQ _ _ x) in *. clearbody y.
   apply lo_le_Z in A. apply le_hi_Z in B.
-  destruct y as [n d]. simpl Qnum in *. simpl Qden in *.
-  unfold fmt2. simpl Qnum. simpl Qden.
+  destruct y as [n d]. cbn [Qnum Qden] in *.
+  unfold fmt2. cbn [Qnum Qden].
   destruct (rhe_spec (100 * Z.abs n) (Zpos d) ltac:(lia) ltac:(lia)) as [H0 _].
   destruct (n =? 0) eqn:E0.
-  { apply Z.eqb_eq in E0. subst n. simpl Z.abs. rewrite Z.mul_0_r.
+  { apply Z.eqb_eq in E0. subst n. change (100 * Z.abs 0) with 0.
     rewrite rhe_0 by lia.
     destruct nz; [apply (range_ok_hasZ l true neg_h 0 GN) | apply (range_ok_hasZ l false pos_h 0 GP)]; lia. }
   apply Z.eqb_neq in E0.
